@@ -134,7 +134,7 @@ DistCases(D, Pos_) == {[Base EXCEPT !.dist = d, !.dpos = q] : d \in D, q \in Pos
 Cases ==
   CASE Slice = "frac"       -> FracCases
     [] Slice = "vec1"       -> VecCases(Vec1)
-    [] Slice = "vec2-quick" -> VecCases({v \in Vec2 : v[1].p \in {"quarter", "half", "1-ulp"} /\ v[2].p \in {"quarter", "half", "half+", "NaN"}})
+    [] Slice = "vec2-quick" -> VecCases({v \in Vec2 : v[1].p \in {"quarter", "half", "1-ulp"} /\ v[2].p \in {"quarter", "half", "half+", "NaN", "+0", "-0", "sub"}})
     [] Slice = "vec2"       -> VecCases(Vec2 \cup Vec3)
     [] Slice = "dist-quick" -> DistCases(DistsQuick, {"pad.timeout"}) \cup
                                DistCases({d \in DistsQuick : ~DistOK(d) /\ d.fam \in {"Uniform", "Poisson", "Binomial"}}, Positions)
